@@ -26,6 +26,9 @@ def cases(rng, tier):
         t = rvasmgen.render(rng, items, decls, canonical=True)
         t = "\n".join(l + rng.choice([" # see issue #12", " ## body", " # a # b # c", "#x#", ""]) if l.strip() and not l.strip().startswith(".") and "'" not in l and '"' not in l else l for l in t.split("\n"))
         yield Case("asm", [f"asm {rvasmgen.hx(t)}"], None, {"text": t, "kind": "valid", "abstract": (items, decls)})
+    # a well-formed program that fills the instruction memory EXACTLY (4094 lines + one two-instruction pseudo-instruction)
+    t = "\n".join(["addi x5, x5, 1"] * 4093 + ["last: li x6, 100000", "beq x0, x0, last"])
+    yield Case("asm", [f"asm {rvasmgen.hx(t)}"], None, {"text": t, "kind": "fits-exactly"})
     # sanitize-irrelevance pairs: the canonical rendering and a noisy rendering of the same abstract program
     for i in range(40 if tier == "quick" else 600):
         items, decls = rvasmgen.gen_abstract(rng)
@@ -47,6 +50,12 @@ def measure(c, stats):
 
 
 def oracle(c):
+    if c.meta.get("kind") == "fits-exactly":
+        o = c.impl_out[0] if c.impl_out else ""
+        n = len(o.partition(" | ")[0].split()[2].split(";")) if o.startswith("ok ") and len(o.split()) > 2 else 0
+        if n != 4096:
+            return [Failure("oracle", PROP, f"a well-formed program of exactly 4096 instructions is not placed completely: {o[:80]}", "asm:valid-rejected:exact-fit")]
+        return []
     if c.meta.get("kind") == "pair":
         if len(c.impl_out) == 2 and c.lines == [f"asm {rvasmgen.hx(c.meta['text'])}", f"asm {rvasmgen.hx(c.meta['text2'])}"]:
             f = rvasmgen.check_valid(Case("asm", [c.lines[0]], None, c.meta, [c.impl_out[0]]), PROP)
